@@ -10,6 +10,17 @@
 (*   MC_WalrusBlocks_sim : long random behaviours (-simulate), 2 topics, <= 16 operations.     *)
 (*   MC_WalrusBlocks_defect_* : one historical defect switched back on; TLC must report    *)
 (*       a violation of RefinesCex and print the behaviour (vacuity guard + regression).  *)
+(*   Reclamation (C12; sizes that fill a block, so that a file of 4 blocks becomes fully     *)
+(*   allocated, is consumed and handed to the deleter within the bound; OpReclaim must      *)
+(*   fire, -coverage 1):                                                                   *)
+(*   MC_WalrusBlocks_reclaim (1 topic, <= 7 operations, peeks, both kinds of reopen, all     *)
+(*       modes under CONSTRAINT GuardAloReclaimNotDurable), _reclaim_deep (<= 9 operations),  *)
+(*       _reclaim2 (2 topics sharing a file, <= 10 operations, StrictlyAtOnce).               *)
+(*   MC_WalrusBlocks_finding_alo_reclaim : AtLeastOnce without the guard; TLC must find the    *)
+(*       recorded finding KF-ENG-ALO-RECLAIM-NOT-DURABLE (a "C12: ..." violation in which the  *)
+(*       persisted index lags: CONSTRAINT FindingIsIndexLag).                                 *)
+(*   MC_WalrusBlocks_defect_ckptevery : "checkpoint counted on every report" (before          *)
+(*       93a0380) switched back on; TLC must find a "C12: ..." violation.                      *)
 (* `hist` is hidden by VIEW, so TLC's breadth-first search visits every distinct          *)
 (* (code path of the last operation, design state, contract state) once and PrintHist      *)
 (* prints one shortest behaviour for each.                                               *)
@@ -38,16 +49,52 @@ NoShapes == {}
 
 View == <<avars, dvars>>
 
-(* avoidance guards for recorded findings (CONSTRAINT) would go here; none is needed at present *)
+ShapesFill == {<<1792, 1792, 1792, 1792>>}
+ShapesFill5 == {<<1792, 1792, 1792, 1792, 1792>>}
+BudgetsR == {0, -1}
+ModesAlo == {<<"alo", 1>>, <<"alo", 2>>}
+
+(* Avoidance guards for recorded findings (CONSTRAINT).                                            *)
+(* KF-ENG-ALO-RECLAIM-NOT-DURABLE (open, C12): in AtLeastOnce mode blocks are marked consumed from   *)
+(* the in-memory position while the persisted index lags (read_next persists every persist_every     *)
+(* reads, batch reads never), so a file can be handed to the deleter while its entries are consumed   *)
+(* in the running process but not durably. Behaviours are not followed beyond such a request - and    *)
+(* beyond such a request only: a request for a file holding an entry that is not even consumed in      *)
+(* memory, or any premature request in StrictlyAtOnce mode, is not covered by this guard.             *)
+(* MC_WalrusBlocks_finding_alo_reclaim.cfg runs without the guard: TLC must find the finding.          *)
+AloReclaimKnown == Alo /\ \E i \in 1 .. Len(rq) :
+                     ConsumedInMemory(StoredIn(rq[i])) /\ ~ReclaimAllowed(StoredIn(rq[i]))
+GuardAloReclaimNotDurable == ~AloReclaimKnown
 NoGuard == TRUE
 
-Summary == [mode |-> mode[0], pe |-> pe[0], last |-> lastOp, v |-> viol, h |-> hist,
-            fin |-> [t \in Topics |-> Proj(t)]]
+(* Only for MC_WalrusBlocks_finding_alo_reclaim.cfg: the contract's durable lower bound of an     *)
+(* AtLeastOnce consumer is conservative (position - persist_every), so it also refuses requests     *)
+(* that the engine's index does cover. This constraint leaves only requests that are either allowed   *)
+(* or hold an entry behind what the persisted index covers after recovery (DurablePos): the            *)
+(* counterexample TLC must find there is the recorded finding itself - the index lags.               *)
+FindingIsIndexLag == \A i \in 1 .. Len(rq) :
+  ReclaimAllowed(StoredIn(rq[i])) \/ \E p \in StoredIn(rq[i]) : p[2] > DurablePos(p[1])
 
-(* always true; one line per distinct state *)
-PrintHist == nops > 0 => PrintT(<<"HIST", ToJson(Summary)>>)
+(* bounds on the data written, for the two-topic reclamation configurations *)
+ShapesPair == {<<1792, 1792>>}
+BudgetsZero == {0}
+BoundLog6 == TotalLogged <= 6
+BoundLog7 == TotalLogged <= 7
+
+(* rq: the requests the last operation raised, each with the entries stored in the file *)
+Summary == [mode |-> mode[0], pe |-> pe[0], last |-> lastOp, v |-> viol, h |-> hist,
+            fin |-> [t \in Topics |-> Proj(t)], fs |-> FsProj,
+            rq |-> [i \in 1 .. Len(lrq) |-> [f |-> lrq[i], st |-> StoredIn(lrq[i])]]]
+
+(* always true; one line per distinct state (the states between an operation and the discharge of  *)
+(* its reclamation requests carry the same history and are not printed)                             *)
+PrintHist == (nops > 0 /\ rq = <<>>) => PrintT(<<"HIST", ToJson(Summary)>>)
 (* only the deepest level and the states a restart produced (enough for long configurations) *)
-PrintHistDeep == (nops = MaxOps \/ (nops >= MaxOps - 1 /\ lastOp = "reopen")) => PrintT(<<"HIST", ToJson(Summary)>>)
+PrintHistDeep == (rq = <<>> /\ (nops = MaxOps \/ (nops >= MaxOps - 1 /\ lastOp \in {"reopen", "reopen_new"})))
+                 => PrintT(<<"HIST", ToJson(Summary)>>)
+(* histories in which a reclamation request was raised, and their prefixes are not needed: the     *)
+(* states right after a request, and the deepest level                                            *)
+PrintHistReclaim == (rq = <<>> /\ (nops = MaxOps \/ lrq # <<>>)) => PrintT(<<"HIST", ToJson(Summary)>>)
 
 RefinesCex == Refines \/ (PrintT(<<"CEX", ToJson(Summary)>>) /\ FALSE)
 =========================================================================================
